@@ -337,6 +337,32 @@ def _(vm, a, ci): return It('cloned', a[0], '')
 def _(vm, a, ci): return It('inspect', a[0], a[1])
 
 
+@path_rx(r'Peekable(?:::<.*>)?::(?:peek|peek_mut|next_if|next_if_eq)$')
+def _(vm, a, ci):
+    it = obj(vm, a[0])
+    if not (isinstance(it, It) and it.kind == 'peekable'): raise Unmodelled(f'peek on {it!r}'[:100])
+    if it.a[1] is None:
+        r = it_next(vm, it.a[0]); it.a[1] = r if r is not None else ()
+    p = it.a[1]
+    if ci.method in ('peek', 'peek_mut'):
+        if p == (): return NONE()
+        cell = Cell(p[0]); it.a[1] = _PeekSlot(cell)
+        return some(Ref(cell))
+    # next_if / next_if_eq
+    if p == (): return NONE()
+    hit = truth(vm, vm.call_value(a[1], [Ref(Cell(p[0]))])) if ci.method == 'next_if' else truth(vm, values_eq(vm, '', p[0], D(vm, a[1])))
+    if hit: it.a[1] = None; return some(p[0])
+    return NONE()
+
+
+class _PeekSlot(tuple):
+    """peeked item held in a cell (so that peek_mut writes are seen by next)"""
+    def __new__(cls, cell):
+        t = tuple.__new__(cls, (None,)); t.cell = cell; return t
+
+    def __getitem__(self, i): return self.cell.v
+
+
 @trait(('Iterator', 'peekable'))
 def _(vm, a, ci): return It('peekable', a[0], None)
 
